@@ -48,6 +48,10 @@ func decodeAll(s string) string {
 }
 
 // SameResource is the C02 verdict for a pair of requests.
+//
+// Paths are compared in a canonical form: escapes of unreserved characters undone, escapes of reserved
+// characters kept opaque (an escaped slash is not a separator, an escaped dot pair that stays escaped is
+// not a dot-segment), then dot-segments and duplicate slashes removed with the trailing slash preserved.
 func SameResource(a, b Target) (Tri, string) {
 	if a.Method != b.Method {
 		return MustNot, "method"
@@ -58,20 +62,32 @@ func SameResource(a, b Target) (Tri, string) {
 	if a.Query != b.Query {
 		return MustNot, "query"
 	}
-	da, db := NormPath(decodeAll(a.Path)), NormPath(decodeAll(b.Path))
-	if da != db {
-		if strings.TrimSuffix(da, "/") == strings.TrimSuffix(db, "/") && da != "" && db != "" {
+	ca, cb := NormPath(decodeUnreserved(a.Path)), NormPath(decodeUnreserved(b.Path))
+	// net/url keeps the raw spelling of a path only when it is a valid encoding; with a byte like "|" or a
+	// space in it the whole path is re-encoded from its decoded form, the proxy forwards that, and an escaped
+	// reserved character in the same path loses its escaping on the way: no verdict for such pairs (the same
+	// domain restriction as in C08)
+	mangled := (hasInvalidRaw(a.Path) || hasInvalidRaw(b.Path)) && (hasEscapedReserved(a.Path) || hasEscapedReserved(b.Path))
+	if ca != cb {
+		if mangled {
+			return Either, "encoded-reserved+invalid-raw-byte"
+		}
+		if strings.TrimSuffix(ca, "/") == strings.TrimSuffix(cb, "/") && ca != "" && cb != "" {
 			return MustNot, "trailing-slash"
 		}
-		if da == "" || db == "" {
-			if (da == "" && db == "/") || (da == "/" && db == "") {
-				return Either, "empty-path"
-			}
+		if (ca == "" && cb == "/") || (ca == "/" && cb == "") {
+			return Either, "empty-path"
+		}
+		if NormPath(decodeAll(a.Path)) == NormPath(decodeAll(b.Path)) {
+			return MustNot, "encoded-reserved"
 		}
 		return MustNot, "path"
 	}
 	if a.HasQ != b.HasQ {
 		return Either, "empty-query"
+	}
+	if mangled {
+		return Either, "encoded-reserved+invalid-raw-byte"
 	}
 	if NormPath(a.Path) == NormPath(b.Path) {
 		switch {
@@ -84,4 +100,30 @@ func SameResource(a, b Target) (Tri, string) {
 		}
 	}
 	return Either, "percent-encoding"
+}
+
+// decodeUnreserved decodes the escapes of non-reserved bytes only (see CanonTarget).
+func decodeUnreserved(s string) string { return CanonTarget(s) }
+
+func hasEscapedReserved(p string) bool {
+	return strings.Contains(CanonTarget(p), "%")
+}
+
+func hasInvalidRaw(p string) bool {
+	for i := 0; i < len(p); i++ {
+		c := p[i]
+		switch {
+		case c >= 'a' && c <= 'z', c >= 'A' && c <= 'Z', c >= '0' && c <= '9':
+		case strings.IndexByte("-._~!$&'()*+,;=:@/[]%", c) >= 0:
+		default:
+			return true
+		}
+	}
+	// a "%" that does not start a valid escape also makes net/url give up on the raw form
+	for i := 0; i < len(p); i++ {
+		if p[i] == '%' && (i+2 >= len(p) || unhex(p[i+1]) < 0 || unhex(p[i+2]) < 0) {
+			return true
+		}
+	}
+	return false
 }
